@@ -71,6 +71,7 @@ class ValueProducer(fm.TimeComponent):
 
 class C20(Property):
     id = "C20"
+    anchors = ('finam.sdk.output:CallbackOutput.get_data', 'finam.components.mergers:WeightedSum._get_data', 'finam.schedule:Composition._update_recursive')
     technique = "one-value model for static slots with fetch counting at the source's public get_data; provider call-log monitor vs scheduling model for pull-based components; arithmetic reference for WeightedSum"
     rule = (
         "static: random request sequences (times incl. None, repeats) on static outputs with static and non-static inputs, repeated "
